@@ -62,6 +62,10 @@ async def run(
     # Start simulator processes
     processes: List[asyncio.Task[None]] = []
     for sim in world.sims.values():
+        # A simulator's progress can be advanced by another simulator's
+        # process before its own process has started.
+        sim.rt_start = perf_counter()
+    for sim in world.sims.values():
         process = world.loop.create_task(
             sim_process(world, sim, until, rt_factor, rt_strict, lazy_stepping),
             name=f"Runner for {sim.sid}"
